@@ -17,7 +17,7 @@ def main():
     n_single = G.n_single() if chk.thorough else 16000 * boost
     n_multi = 300000 if chk.thorough else 36000 * boost
     n_bad = 200000 if chk.thorough else 20000 * boost
-    short_len = 5 if chk.thorough else 4
+    short_len = 5
 
     fam = {'corpus': C.corpus()}
     fam.update(C.stream_inputs(chk, n_single, n_multi, n_bad, short_len))
